@@ -21,7 +21,7 @@ CLAIMS = {
         "container, it stored the given value, and the call hands back (store: releases in its last step) exactly the value that write replaced; compare_and_swap/rcu: C05/C06. "
         "'Handed back exactly once, owning a full reference': the removed value is carried with exactly one reference in the accounting table until it reaches the caller's "
         "handle (C04_accounting = the count equation in every state of every run within Main.RunOK; C04_returned_value_alive); the hb theorems C04_handover_* pin the orderings of the "
-        "exchanges (a weakened swap/compare-exchange breaks them).",
+        "exchanges (a weakened swap/compare-exchange breaks them). Also proved for runs in which the non-SeqCst loads of the read side return stale values (Stale2.step_stale2, RunOKS2; theorems *_stale2 pinned in this property's Props file).",
    technique="Rocq/Coq proof (induction over schedules) + trace correspondence"),
  "C05": dict(engine="ASModel",
    text="Coq theorems over ASModel (all states, all scheduler choices incl. spurious failure): the exchange step of compare_and_swap "
@@ -29,7 +29,7 @@ CLAIMS = {
         "equals current, otherwise the loaded guard is returned and new loses exactly one reference; success returns a guard on current. " + TIE,
    note=NOTE + "Run level (ASModel/LinCas*.v, all schedules within Main.RunOK): C05_cas_linearizable - a completed compare_and_swap(current=a, new=b) returns p; if p<>a no step of the call "
         "wrote the container and p was its content in a state between call and return; if p=a exactly one step of the call wrote it and replaced exactly a by b. A-B-A: C05_no_aba (ASModel/Alive.v, all schedules within Main.RunOK) - while the exchange frame exists the compared value is the guarded one, it is alive and the "
-        "object at that address stays the same object across every step of any thread; the forms of `current` are compared by the sequential differential run (C14).",
+        "object at that address stays the same object across every step of any thread; the forms of `current` are compared by the sequential differential run (C14). Also proved for runs in which the non-SeqCst loads of the read side return stale values (Stale2.step_stale2, RunOKS2; theorems *_stale2 pinned in this property's Props file).",
    technique="Rocq/Coq proof (step lemmas on the model) + trace correspondence"),
  "C06": dict(engine="ASModel",
    text="Coq theorems over ASModel: every rcu attempt exchanges against exactly the pointer whose guard was passed to the closure, a "
@@ -37,7 +37,7 @@ CLAIMS = {
         "sits directly on top of the value read. " + TIE,
    note=NOTE + "Run level (ASModel/LinCasRcu.v, all schedules within Main.RunOK): C06_rcu_linearizable - a completed rcu returns the previous value q, exactly one step of the call wrote the "
         "container, replacing exactly q by what the closure made from q in that attempt; failed attempts wrote nothing. C06_guard_keeps_identity: the guard rcu holds keeps the closure's input alive and identical across every step (all schedules within Main.RunOK). The counting "
-        "corollary (k increments add k) is checked by the correspondence oracle.",
+        "corollary (k increments add k) is checked by the correspondence oracle. Also proved for runs in which the non-SeqCst loads of the read side return stale values (Stale2.step_stale2, RunOKS2; theorems *_stale2 pinned in this property's Props file).",
    technique="Rocq/Coq proof (step lemmas on the model) + trace correspondence"),
  "C08": dict(engine="ASModel",
    text="Coq theorems over ASModel: a strictly decreasing measure on the program points of load/load_full that holds in every shared "
@@ -81,7 +81,7 @@ CLAIMS.update({
         "(generation uniqueness with a modular age), for runs of fewer than 2^62 steps in which set_generation is at most the first command of a thread (any value): "
         "C13_wrap_no_use_after_free, C13_wrap_accounting, C13_wrap_load_linearizable hold through the wrap, the cooldown it triggers and the re-claim; C13_wrap_scope_inhabited is a "
         "checked run that wraps with a writer helping on the wrapped generation. Arc counter overflow and allocation failure are out of scope; unwinding of user panics is C18; "
-        "hanging is C08/C09.",
+        "hanging is C08/C09. Also proved for runs in which the non-SeqCst loads of the read side return stale values (Stale2.step_stale2, RunOKS2; theorems *_stale2 pinned in this property's Props file).",
    technique="Rocq/Coq proof (inductive invariant over all schedules, Owicki-Gries) + trace correspondence"),
  "C16": dict(engine="ASModel",
    text="Coq theorems over ASModel: C16_cache_linearizable (instrumented runs, all schedules, any number of threads and caches): a completed Cache::new / Cache::load leaves in the "
@@ -272,7 +272,7 @@ CLAIMS["C09"].update(
         "start: 68*H + k + 80 steps for swap-like operations, O(k*H + k^2 + H) for compare_and_swap and rcu (H debt nodes, k spurious weak-CAS failures injected by the scheduler); "
         "no step reads or changes another thread's frames; nested helping loads are wait-free (C08). " + TIE + " Freeze sweeps suspend every other thread at every point of "
         "scenario programs (incl. a fallback reader of a different container) and require the solo thread to finish.",
-   note=NOTE + "Faults and panics count as finished (excluded by C01/C13).",
+   note=NOTE + "Faults and panics count as finished (excluded by C01/C13). Also proved for runs in which the non-SeqCst loads of the read side return stale values (Stale2.step_stale2, RunOKS2; theorems *_stale2 pinned in this property's Props file).",
    technique="Rocq/Coq proof (decreasing measure over all states of the invariant, induction over solo schedules) + trace correspondence + solo-completion sweeps")
 CLAIMS["C10"].update(
    text="Coq theorems over ASModel, " + RUNOK + ", any schedule: C10_guard_keeps_value - in every state the value a guard or owned handle refers to is alive; C10_guard_keeps_identity - "
@@ -280,7 +280,7 @@ CLAIMS["C10"].update(
         "the container is dropped, after the creating thread exited and its node was re-claimed; a guard is (pointer, slot named by node and index) and its drop/into_inner depend "
         "only on that pair and the shared memory, not on the executing thread; the drop gives back exactly the debt or exactly one reference (accounting: C02). " + MASTER + TIE +
         " Oracle: object identity seen through each guard at creation and at drop; guards moved between threads, > 8 guards held.",
-   note=NOTE + "Operations after TLS destruction are not modelled (tested on the crate by harness/late, see C11).",
+   note=NOTE + "Operations after TLS destruction are not modelled (tested on the crate by harness/late, see C11). Also proved for runs in which the non-SeqCst loads of the read side return stale values (Stale2.step_stale2, RunOKS2; theorems *_stale2 pinned in this property's Props file).",
    technique="Rocq/Coq proof (inductive invariant over all schedules) + trace correspondence with an identity oracle")
 CLAIMS["C11"].update(
    text="Coq theorems over ASModel, all schedules: C11_exclusive - in every reachable state a debt node has at most one holder and in_use = USED exactly when it has one; "
@@ -297,7 +297,7 @@ CLAIMS["C12"].update(
         " Provenance oracle per container; multi-container programs; D8 grid.",
    note=NOTE + "Objects of the model are untyped. Containers of DIFFERENT pointee types: known finding D3 (a reader releases, as its own type, a reference a writer of another "
         "container put on an object of another type at a reused address: type confusion) is reproduced deterministically on the real crate by harness/typed on every run and printed "
-        "as KNOWN-FINDING; the same-type control must behave correctly.",
+        "as KNOWN-FINDING; the same-type control must behave correctly. Also proved for runs in which the non-SeqCst loads of the read side return stale values (Stale2.step_stale2, RunOKS2; theorems *_stale2 pinned in this property's Props file).",
    technique="Rocq/Coq proof (inductive invariants over all schedules) + trace correspondence with a provenance oracle")
 
 REASONS = {}
